@@ -87,12 +87,24 @@ Proof.
   destruct (mem (fst kv) (k_consumed st)); [reflexivity|].
   rewrite split_at_name_E.
   destruct (split_at_name (fst kv) (k_pok st)) as [[[before p] after]|].
-  - cbn [res_map]. f_equal. unfold Ek; cbn [k_pok k_va k_kwo k_src k_consumed]. f_equal.
-    + rewrite map_kind_E, (od_update_E rho).
+  - cbn [res_map]. f_equal.
+    assert (Hk : match pm with
+                 | Some _ => od_set (od_update (map E (k_kwo st)) (map (set_kind KO) (map E after)))
+                                    (set_def (Some (snd kv)) (set_kind KO (E p)))
+                 | None => od_update (map E (k_kwo st)) (map (set_kind KO) (map E after))
+                 end =
+                 map E match pm with
+                       | Some _ => od_set (od_update (k_kwo st) (map (set_kind KO) after))
+                                          (set_def (Some (snd kv)) (set_kind KO p))
+                       | None => od_update (k_kwo st) (map (set_kind KO) after)
+                       end).
+    { rewrite map_kind_E, (od_update_E rho).
       destruct pm; [|reflexivity].
       change (set_def (Some (snd kv)) (set_kind KO (E p))) with (E (set_def (Some (snd kv)) (set_kind KO p))).
-      apply (od_set_E rho).
-    + destruct (k_va st) as [v|]; reflexivity.
+      apply (od_set_E rho). }
+    rewrite Hk. clear Hk. unfold Ek; cbn [k_pok k_va k_kwo k_src k_consumed]. f_equal.
+    destruct (k_va st) as [v|]; cbn [Annot.Eo option_map]; [|reflexivity].
+    change (pname (E v)) with (pname v). rewrite (find_param_E rho), isSome_map. reflexivity.
   - rewrite (find_param_E rho). destruct (find_param (fst kv) (k_kwo st)) as [p|]; cbn [option_map].
     + destruct pm; cbn [res_map]; f_equal; unfold Ek; cbn [k_pok k_va k_kwo k_src k_consumed]; f_equal.
       * change (set_def (Some (snd kv)) (set_kind KO (E p))) with (E (set_def (Some (snd kv)) (set_kind KO p))).
@@ -123,7 +135,7 @@ Proof.
   change (varargs (ES so)) with (Eo (varargs so)).
   change (varkwargs (ES so)) with (Eo (varkwargs so)).
   change (ssrc (ES so)) with (ssrc so). change (sdep (ES so)) with (sdep so).
-  rewrite <- map_app, !names_of_E, !isSome_Eo, !map_length, !skipn_E, firstn_E, names_of_E.
+  rewrite <- map_app, !names_of_E, !isSome_Eo, !map_length, !skipn_E, !firstn_E, ?names_of_E.
   match goal with |- bind ?X ?F' = res_map _ (bind ?Y ?F) =>
     assert (HF : forall pos1 pok1 consumed,
                F' (map E pos1, map E pok1, consumed) = res_map (eagerize rho) (F (pos1, pok1, consumed)));
@@ -134,7 +146,7 @@ Proof.
   - intros pos1 pok1 consumed. cbv beta iota.
     destruct (varargs so) as [va|], (varkwargs so) as [vk|]; cbn [Annot.Eo option_map isSome];
       destruct (h_args h || h_varargs h), (h_kwargs h), (h_varkwargs h); cbn [orb];
-      destruct pm as [pobj|]; cbv beta iota; rewrite ?names_of_E;
+      destruct pm as [pobj|]; cbv beta iota; rewrite ?map_length, ?firstn_E, ?names_of_E;
       (match goal with |- bind (mask_names ?a ?b _ ?c) ?F = res_map ?hh (bind (mask_names _ _ ?st _) ?G) =>
          change (bind (mask_names a b (Ek st) c) F = res_map hh (bind (mask_names a b st c) G)) end;
        rewrite mask_names_E;
